@@ -1158,21 +1158,19 @@ def configs_from_repo(repo):
                     if kw.arg == "grammar" and isinstance(kw.value, ast.Name):
                         inst[name + "::grammar"] = kw.value.id
         d = mod.assigns["dialects"]
-        rows = []
-        if isinstance(d, ast.Call):
-            for kw in d.keywords:
-                rows.append((kw.arg, kw.value))
+        from .core import dict_entries
+        rows = dict_entries(d) or []
         for rname, row in rows:
-            if not isinstance(row, ast.Call):
+            if dict_entries(row) is None:
                 continue
             parser = decoder = grammar = None
-            for kw in row.keywords:
-                if kw.arg == "parser" and isinstance(kw.value, ast.Call):
-                    parser = norm(kw.value.func)
-                elif kw.arg == "grammar" and isinstance(kw.value, ast.Name):
-                    grammar = inst.get(kw.value.id)
-                elif kw.arg == "decoder" and isinstance(kw.value, ast.Name):
-                    decoder = inst.get(kw.value.id)
+            for karg, kvalue in dict_entries(row):
+                if karg == "parser" and isinstance(kvalue, ast.Call):
+                    parser = norm(kvalue.func)
+                elif karg == "grammar" and isinstance(kvalue, ast.Name):
+                    grammar = inst.get(kvalue.id)
+                elif karg == "decoder" and isinstance(kvalue, ast.Name):
+                    decoder = inst.get(kvalue.id)
             if parser and decoder and grammar and repo.has_cls(parser):
                 key = (parser, decoder, grammar)
                 if key not in seen:
